@@ -137,6 +137,20 @@ Theorem C18_render_str_eq_render_str_to : forall wd fuel one_off ae c g,
          (tera_render_str wd fuel one_off ae c g).
 Proof. exact (fun wd fuel one_off ae c g => string_variant_agrees _ (tera_render_str_to_simulable wd fuel one_off ae c g)). Qed.
 
+(* both channels of render_component run the component chunk at component_recursion_depth 0, so
+   they reach MAX_COMPONENT_RECURSION_DEPTH at the same nesting (w_max_depth is consulted in `run`
+   with `S depth`) *)
+Theorem C18_component_channels_same_depth :
+  forall wd fuel comp src supplied body ae def cchunk cctx,
+  assoc_get (w_components wd) comp = Some (def, cchunk) ->
+  w_build_ctx wd def supplied (option_map (fun b => VStr b true) body) = ROk cctx ->
+  (forall (W : Type) (wr : W -> str -> option W) (w : W),
+     tera_render_component_to W wr wd fuel comp src supplied body ae w
+     = run W wr wd fuel src (Some ae) 0 cchunk 0 (new_state cctx) (SinkTop w)) /\
+  tera_render_component wd fuel comp src supplied body ae
+  = res_of_run (run str wr_str wd fuel src (Some ae) 0 cchunk 0 (new_state cctx) (SinkTop [])).
+Proof. exact component_channels_same_depth. Qed.
+
 (* Tera::one_off is render_str on a default instance with an empty global context *)
 Theorem C18_one_off_eq_render_str_to : forall default_world fuel one_off ae c,
   agrees (fun W wr w => tera_render_str_to W wr default_world fuel one_off ae c [] w)
